@@ -798,6 +798,9 @@ def show_shared(sh):
                    show_form(_form_from(sh['form2'])), show_ps(q),
                    {'direct': 'g used directly', 'instance': 'g is attribute m of a class and is looked up on an instance',
                     'class': 'g is attribute m of a class and is looked up on the class'}[sh['mode']]))
+    if kind == 'owner':
+        return ('attribute m of %s; looked up first on %s, then observed on the instance'
+                % (OWNER_KINDS[sh['owner']][0], ', then '.join(sh['touch']) or 'nothing'))
     if kind == 'reuse':
         return ('ONE decorator object applied in turn to functions %s; this is number %d'
                 % (' / '.join('f%s' % show_ps(tuple(tuple(p) for p in q)) for q in sh['pss']), sh['index']))
@@ -894,6 +897,103 @@ def build_wraps(ps, form, sh):
     return lambda: getattr(owner, 'm')
 
 
+# ---------------------------------------------------------------- the instance the method is looked up on
+# Instance access binds the first parameter whatever the instance is: the
+# bound signature and the call routing are those observed on a plain object()
+# instance (the native oracle of check_case uses one).  The classes below vary
+# what the instance says about itself: truth value, length, equality, hash,
+# attribute storage.  The instance never travels through vnum as a number
+# (no int / tuple / dict subclasses), it is delivered as SELFVAL.
+def _owner_ns(kind):
+    if kind == 'plain':
+        return (object,), {}
+    if kind == 'len0':
+        return (object,), {'__len__': lambda self: 0}
+    if kind == 'boolfalse':
+        return (object,), {'__bool__': lambda self: False}
+    if kind == 'emptylist':
+        return (list,), {}
+    if kind == 'emptyset':
+        return (set,), {}
+    if kind == 'emptystr':
+        return (str,), {}
+    if kind == 'emptybytes':
+        return (bytes,), {}
+    if kind == 'unhashable':
+        return (object,), {'__eq__': lambda self, other: self is other, '__hash__': None}
+    if kind == 'eqall':
+        return (object,), {'__eq__': lambda self, other: True, '__hash__': lambda self: 1}
+    if kind == 'slots':
+        return (object,), {'__slots__': ()}
+    if kind == 'slots-len0':
+        return (object,), {'__slots__': (), '__len__': lambda self: 0}
+    if kind == 'getattr':
+        def ga(self, name):
+            raise AttributeError(name)
+        return (object,), {'__getattr__': ga, '__bool__': lambda self: False}
+    raise KeyError(kind)
+
+
+OWNER_KINDS = {
+    'plain': ('a plain class', False),
+    'len0': ('a class whose __len__ returns 0 (falsy instance)', True),
+    'boolfalse': ('a class whose __bool__ returns False (falsy instance)', True),
+    'emptylist': ('a list subclass, empty instance (falsy)', True),
+    'emptyset': ('a set subclass, empty instance (falsy)', True),
+    'emptystr': ('a str subclass, empty instance (falsy)', True),
+    'emptybytes': ('a bytes subclass, empty instance (falsy)', True),
+    'unhashable': ('a class with __eq__ and __hash__ = None (unhashable instance)', False),
+    'eqall': ('a class whose instances are all equal with equal hashes', False),
+    'slots': ('a class with empty __slots__', False),
+    'slots-len0': ('a class with empty __slots__ whose __len__ returns 0 (falsy instance)', True),
+    'getattr': ('a class with a raising __getattr__ and __bool__ returning False (falsy instance)', True),
+}
+OWNER_ORDER = ['plain', 'len0', 'boolfalse', 'emptylist', 'emptyset', 'emptystr', 'emptybytes', 'unhashable', 'eqall',
+               'slots', 'slots-len0', 'getattr']
+
+
+def build_owner(ps, form, sh):
+    """g = form(f) is attribute m of a class of the given kind; the lookups of
+    sh['touch'] ('class' / 'instance' / 'other': another instance of the same
+    class) happen first; returns a getter for the lookup on THE instance."""
+    f = make_fn(ps, fresh=True)
+    with warnings.catch_warnings():
+        warnings.simplefilter('ignore')
+        g = apply_form(f, form)
+    bases, ns = _owner_ns(sh['owner'])
+    ns = dict(ns, m=g)
+    cls = type('O', bases, ns)
+    inst = cls()
+    other = cls()
+    keep = []
+    for t in sh['touch']:
+        try:
+            keep.append(getattr({'class': cls, 'instance': inst, 'other': other}[t], 'm'))
+        except Exception:  # noqa: BLE001
+            pass
+    return lambda: getattr(inst, 'm')
+
+
+def owner_scenarios(ps, rng, kinds):
+    """(form, True, scenario): admissible single forms that do not select the
+    first parameter, the method looked up on instances of every kind."""
+    if not (ps and ps[0][1] in ('PO', 'PK')):
+        return
+    first = ps[0][0]
+    forms = []
+    for fm in _translator_forms(ps, rng):
+        sel = spec_select(ps, fm)
+        if first in sel[0] or first in sel[1]:
+            continue
+        forms.append(fm)
+    if not forms:
+        return
+    for kind in kinds:
+        fm = rng.choice(forms)
+        touch = rng.choice([[], [], ['class'], ['instance'], ['other'], ['class', 'other'], ['other', 'class']])
+        yield fm, True, {'kind': 'owner', 'owner': kind, 'touch': touch}
+
+
 def build_reuse(form, sh):
     dec = decorator_for(form)
     res = []
@@ -922,6 +1022,8 @@ def build_shared(ps, sh, form=None):
         return build_derived(ps, form, sh)
     if kind == 'reuse':
         return build_reuse(form, sh)
+    if kind == 'owner':
+        return build_owner(ps, form, sh)
     if kind == 'wraps':
         return build_wraps(ps, form, sh)
     if kind == 'annotate':
@@ -1414,6 +1516,18 @@ def run(ctx, rep):
             if r is not None and r[0] != 'skip' and srng.random() < 0.1:
                 model_cases.append((ps_ann, form, bound, r[0], r[1]))
     rep.coverage['after_annotate_on_top'] = nann
+    # ---- the method looked up on instances of classes with their own truth value / equality / hash / storage
+    orng = ctx.rng('owner')
+    nown = {}
+    ocand = [ps for ps in fns if ps and ps[0][1] in ('PO', 'PK') and sum(1 for p in ps if p[1] == 'PK') >= 2]
+    for ps in (orng.sample(ocand, min(len(ocand), 60)) if ctx.quick else ocand):
+        kinds = OWNER_ORDER if not ctx.quick else orng.sample(OWNER_ORDER, 5)
+        for form, bound, sh in owner_scenarios(ps, orng, kinds):
+            r = check_case(ps, form, bound, rep, stats, defer=deferred, getter=build_shared(ps, sh, form), shared=sh)
+            nown[sh['owner']] = nown.get(sh['owner'], 0) + 1
+            if r is not None and r[0] != 'skip' and orng.random() < 0.1:
+                model_cases.append((ps, form, bound, r[0], r[1]))
+    rep.coverage['instance_kinds'] = nown
     # ---- one decorator object applied to several functions
     rrng = ctx.rng('reuse')
     nreuse = 0
